@@ -207,6 +207,21 @@ def one_tree(tspec, acc, rnd, sample=False, forced=None):
             se, case = scan("include+regex" if use_regex else "include+glob", **kw)
             case["round"] = [use_regex, list(pats)]
             configs.append((se, case))
+            if rnd.random() < 0.5 or rounds:
+                # the same external patterns as a one-shot iterable: the same architecture (if one is built at all)
+                form = rnd.choice(["generator", "map", "list"])
+                kw2 = dict(kw)
+                kw2["regex_external_exclusions" if use_regex else "external_exclusions"] = (p_ for p_ in pats) if form == "generator" else map(str, pats) if form == "map" else list(pats)
+                try:
+                    get_evaluable_architecture(root, mp_abs, **kw2)
+                    alt = HUB.scan_events[-1]
+                    acc.evaluated()
+                    acc.count("scans_with_external_patterns_in_another_container")
+                    if alt.state != se.state:
+                        HUB.case = case
+                        HUB.violation("C10", f"external-patterns-as-{form}-differ-from-tuple", f"the same external exclusion patterns given as a {form} build another architecture than given as a tuple", {"kw": case["kw"], "nodes_diff": sorted(alt.nodes ^ se.nodes)[:12], "imports_diff": sorted(alt.imps ^ se.imps)[:12]})
+                except Exception as e:  # noqa: BLE001  (no architecture, no claim)
+                    acc.hist("pattern_container_rejected", f"{form}:{type(e).__name__}")
             matcher = (lambda p, s: re.match(p, s) is not None) if use_regex else rglob.matches
             if any(matcher(p, n) for p in pats for n in internal_names):
                 acc.count("patterns_matching_internal_names")
@@ -263,7 +278,7 @@ def replay(case, acc):
 
 def floors(acc, tier):
     why = []
-    for c, n in (("config_comparisons", 200), ("patterns_matching_internal_names", 20), ("patterns_matching_externals", 20), ("nested_external_nodes", 50), ("include_scans_with_file_exclusion_matching_an_external_name", 50), ("module_path_with_imported_prefix_sibling", 30), ("trees_with_1000+_import_statements", 4)):
+    for c, n in (("config_comparisons", 200), ("patterns_matching_internal_names", 20), ("patterns_matching_externals", 20), ("nested_external_nodes", 50), ("include_scans_with_file_exclusion_matching_an_external_name", 50), ("module_path_with_imported_prefix_sibling", 30), ("trees_with_1000+_import_statements", 4), ("scans_with_external_patterns_in_another_container", 50)):
         if acc.counters[c] < n:
             why.append(f"{c}: only {acc.counters[c]}")
     if acc.counters["scan_model_errors"]:
